@@ -168,6 +168,40 @@ def run(ctx):
                              "before": {k.decode(): v.decode("latin-1") for k, v in before.items()}, "after": {k.decode(): v.decode("latin-1") for k, v in srv.scripts.items()}})
             if srv.log:
                 viol.append({"state": "names %r→%r" % (old_, new_), "fault": None, "what": "server protocol log: %r" % srv.log})
+    # listing dialects: how servers in the field write the ACTIVE marker (RFC 5804 makes the word case-insensitive; stray blanks
+    # around it are harmless deviations).  Only SAFETY is judged here — a client that refused such a listing with Error would be
+    # right too; what it must never do is overlook the active script and write over it
+    for marker in (b" ACTIVE", b" active", b" Active", b"  ACTIVE", b" ACTIVE ", b" ACTIVE\t", b"\tactive  "):
+        for (o, n, by) in states:
+            scripts = {}
+            if by:
+                scripts[other] = r.choice(BODIES)
+            if o != "absent":
+                scripts[old] = r.choice(BODIES)
+            if n != "absent":
+                scripts[new] = r.choice(BODIES)
+            active = old if o == "active" else (new if n == "active" else (other if by else None))
+            srv = refserver.RefServer(r, scripts=scripts, active=active, version=False)
+            srv.active_marker = marker
+            s = msref.Session()
+            g = srv.greeting()
+            c_out = s.connect(b"", [], "user", "pw", server=srv)
+            reqs = ["c op=new", msref.req_connect(g, [], "user", "pw", later=list(s.wire.segments))]
+            outs = ["ok", c_out]
+            before, abefore = dict(srv.scripts), srv.active
+            nseg = len(s.wire.segments)
+            out = s.op("renamescript", old.decode(), new.decode())
+            reqs.append(msref.req_op("renamescript", old.decode(), new.decode(), later=list(s.wire.segments[nseg:])))
+            outs.append(out)
+            lines += reqs
+            expect += outs
+            evals += 1
+            nontriv += 1 if o != "absent" else 0
+            res = out.split(" ")[0][4:]
+            res = "crash" if res.startswith("crash") else res
+            for p in judge(before, dict(srv.scripts), abefore, srv.active, old, new, res):
+                viol.append({"state": "marker %r old=%s new=%s bystander=%s" % (marker, o, n, by), "fault": None, "what": p, "result": out[:80],
+                             "before": {k.decode(): v.decode("latin-1") for k, v in before.items()}, "after": {k.decode(): v.decode("latin-1") for k, v in srv.scripts.items()}})
     model = run_driver(lines, live_table=False)
     diffs = [{"suite": "client", "request": l[:300], "impl": e[:300], "model": m[:300]} for l, e, m in zip(lines, expect, model) if e != m]
     seen, uv = set(), []
